@@ -148,7 +148,8 @@ def pool(rng, quick):
     # malformed ones
     base = out[0][1]
     for mut in ("none-row", "bad-index", "neg-reward", "no-final", "short-rewards", "empty-row", "int-row", "float-row",
-                "bool-row", "str-row", "two-defects"):
+                "bool-row", "str-row", "two-defects", "short-tl", "long-tl", "neg-and-short-tl", "neg-and-long-rewards",
+                "no-final-and-neg"):
         h = copy.deepcopy(base)
         if mut == "none-row":
             h["transition_list"][0] = None
@@ -157,6 +158,18 @@ def pool(rng, quick):
             h["transition_list"][0] = None
             lab, _ = h["transition_list"][-3][0]
             h["transition_list"][-3][0] = (lab, len(h["players"]))
+        elif mut == "short-tl":
+            h["transition_list"] = h["transition_list"][:-1]          # fewer transition lists than players
+        elif mut == "long-tl":
+            h["transition_list"] = h["transition_list"] + [[(1, 0)]]
+        elif mut == "neg-and-short-tl":
+            h["rewards"][0] = -3
+            h["transition_list"] = h["transition_list"][:-1]
+        elif mut == "neg-and-long-rewards":
+            h["rewards"] = [-1] + h["rewards"]
+        elif mut == "no-final-and-neg":
+            h["final_states"] = []
+            h["rewards"][-1] = -2
         elif mut == "bad-index":
             lab, _ = h["transition_list"][-3][0]
             h["transition_list"][-3][0] = (lab, len(h["players"]))
